@@ -165,6 +165,11 @@ LAYOUTS = {
     "sibling": ("proj/app/main.xbb", "proj/lib/sub.xbb", "../lib/sub.xbb"),
     "deep": ("proj/a/b/main.xbb", "proj/x/y/sub.xbb", "../../x/y/sub.xbb"),
     "absolute": ("proj/main.xbb", "elsewhere/sub.xbb", None),
+    # spellings that begin with ./ and go on with .. or a hidden directory
+    "dot-dotdot": ("proj/app/main.xbb", "proj/lib/sub.xbb", "./../lib/sub.xbb"),
+    "hidden-dir": ("proj/main.xbb", "proj/.hidden/sub.xbb", "./.hidden/sub.xbb"),
+    "dotslash-subdir": ("proj/main.xbb", "proj/lib/sub.xbb", "./lib/sub.xbb"),
+    "dotdot-twice-dot": ("proj/a/b/main.xbb", "proj/x/sub.xbb", "../.././x/sub.xbb"),
 }
 
 
